@@ -7,7 +7,10 @@ package spdxexp
 // vOutputs() reports the bytes the process wrote to stdout/stderr, and the concurrent
 // section (replay only) runs the same calls from several goroutines under the race detector.
 
-import "sync"
+import (
+	"strings"
+	"sync"
+)
 
 func vSameList(a, b []string) bool {
 	if len(a) != len(b) {
@@ -31,7 +34,15 @@ func vWorkload(text string, allowed []string) (bool, bool, []string, bool, bool,
 func vCheckPure(text string, allowed []string) {
 	before := append([]string(nil), allowed...)
 	o0, g0 := vOutputs(), vGlobalWrites()
+	// related inputs (another letter case, trailing white space): what the library says about
+	// them must not depend on whether the original has been processed in between
+	low, padded := strings.ToLower(text), text+"\t"
+	lowOK0, padOK0 := vValid(low), vValid(padded)
+	lowX0, lowE0 := ExtractLicenses(low)
 	r1, e1, l1, x1, ok1, inv1 := vWorkload(text, allowed)
+	lowX1, lowE1 := ExtractLicenses(low)
+	vAssert(vAnd(vIff(lowOK0, vValid(low)), vIff(padOK0, vValid(padded))), "same-result-after-related-calls")
+	vAssert((lowE0 == nil) == (lowE1 == nil) && vSameList(lowX0, lowX1), "same-result-after-related-calls")
 	vAssert(vSameList(allowed, before), "args-unchanged")
 	// again, in another order, after other calls
 	ok2, inv2 := ValidateLicenses(allowed)
